@@ -163,7 +163,40 @@ def run(ctx, prog):
             return None
         A.require('%s-claims/every-field-read-back-from-where-it-was-written' % kind, oki, r_wire, replay=R('[roundtrip]'))
 
-    # ---- consistency of duplicated members (credential) -------------------------------------------------------------------
+    credential_consistency(A, prog, R('[consistency]'))
+    presentation_consistency(A, prog, {'scenario': 'presentation_validation', 'cex': {'only': '[consistency]'}})
+
+    # ---- numeric dates ----------------------------------------------------------------------------------------------------------
+    f = prog.one(r'jwt_serialization::<impl at [^>]*>::to_issuance_date$')
+    paths, ex = A.paths(f, inline=r'to_issuance_date::\{closure')
+    ID = S['IssuanceDateClaims']
+
+    def r_tid(p):
+        if p.kind != 'return':
+            return 'panic ' + p.msg
+        nbf = ('field', ('leaf', 'self'), ID.index('nbf'), '')
+        iat = ('field', ('leaf', 'self'), ID.index('iat'), '')
+        fu = [c for c in p.find_calls(r'Timestamp::from_unix$')]
+        if p.is_ok():
+            src = nbf if p.took(nbf, 'Some') else (iat if p.took(iat, 'Some') else None)
+            if src is None:
+                return 'issuance date produced without nbf or iat'
+            want = ex.sym_int(('field', src, 0, 'Some'), 64, True).e
+            good = [c for c in fu if p.took(c, 'Ok') and ((isinstance(c.argvals[0], VInt) and z3.eq(z3.simplify(c.argvals[0].e), z3.simplify(want)))
+                                                        or strip(c.args[0]) == ('field', src, 0, 'Some'))]
+            if not good or strip(p.term(p.payload())) != ('field', good[0].ret, 0, 'Ok'):
+                return 'issuance date is not from_unix(%s) (nbf takes precedence over iat)' % ('nbf' if src is nbf else 'iat')
+            return None
+        # Err: nothing present, or the range gate refused
+        if p.took(nbf, 'None') and p.took(iat, 'None'):
+            return None
+        return None if any(p.took(c, 'Err') for c in fu) else 'valid numeric date rejected'
+    A.require('numeric-dates/nbf-else-iat-through-the-0000-9999-gate', paths, r_tid, replay=R('[dates]'))
+
+
+def credential_consistency(A, prog, replay):
+    """CredentialJwtClaims::check_consistency: every member repeated inside vc agrees with its registered claim (shared with C02)"""
+    S = prog.structs
     CF, IF = S['CredentialJwtClaims'], S['InnerCredential']
     vc = CF.index('vc')
     f = prog.one(r'credential::jwt_serialization::<impl at [^>]*>::check_consistency$')
@@ -229,37 +262,8 @@ def run(ctx, prog):
             if not (s and ss and eq_true(p, lambda t: self_field(t, [CF.index('sub')]), lambda t: self_field(t, [vc, csi, 0]))):
                 return 'vc.credentialSubject.id present but sub absent / different'
         return None
-    A.require('credential-claims/check_consistency-every-duplicated-member-agrees', okp, r_cc, replay=R('[consistency]'))
-    A.no_panic('credential-claims/check_consistency-no-panic', paths, replay=R('[consistency]'))
-
-    presentation_consistency(A, prog, {'scenario': 'presentation_validation', 'cex': {'only': '[consistency]'}})
-
-    # ---- numeric dates ----------------------------------------------------------------------------------------------------------
-    f = prog.one(r'jwt_serialization::<impl at [^>]*>::to_issuance_date$')
-    paths, ex = A.paths(f, inline=r'to_issuance_date::\{closure')
-    ID = S['IssuanceDateClaims']
-
-    def r_tid(p):
-        if p.kind != 'return':
-            return 'panic ' + p.msg
-        nbf = ('field', ('leaf', 'self'), ID.index('nbf'), '')
-        iat = ('field', ('leaf', 'self'), ID.index('iat'), '')
-        fu = [c for c in p.find_calls(r'Timestamp::from_unix$')]
-        if p.is_ok():
-            src = nbf if p.took(nbf, 'Some') else (iat if p.took(iat, 'Some') else None)
-            if src is None:
-                return 'issuance date produced without nbf or iat'
-            want = ex.sym_int(('field', src, 0, 'Some'), 64, True).e
-            good = [c for c in fu if p.took(c, 'Ok') and ((isinstance(c.argvals[0], VInt) and z3.eq(z3.simplify(c.argvals[0].e), z3.simplify(want)))
-                                                        or strip(c.args[0]) == ('field', src, 0, 'Some'))]
-            if not good or strip(p.term(p.payload())) != ('field', good[0].ret, 0, 'Ok'):
-                return 'issuance date is not from_unix(%s) (nbf takes precedence over iat)' % ('nbf' if src is nbf else 'iat')
-            return None
-        # Err: nothing present, or the range gate refused
-        if p.took(nbf, 'None') and p.took(iat, 'None'):
-            return None
-        return None if any(p.took(c, 'Err') for c in fu) else 'valid numeric date rejected'
-    A.require('numeric-dates/nbf-else-iat-through-the-0000-9999-gate', paths, r_tid, replay=R('[dates]'))
+    A.require('credential-claims/check_consistency-every-duplicated-member-agrees', okp, r_cc, replay=replay)
+    A.no_panic('credential-claims/check_consistency-no-panic', paths, replay=replay)
 
 
 def presentation_consistency(A, prog, replay):
